@@ -1549,6 +1549,13 @@ PROGS4 = [
 'class Base:\n    def __init__(self):\n        print("hi")\n\n\nclass A(Base):\n    pass\n\n\nA()\nprint("end")\n',
 'import sys  # pyrefact: ignore\nimport os\nprint(sys.platform != "", os.sep != "")\n',
 'import functools\n\n\n@functools.lru_cache(maxsize=None)\ndef sq(x):\n    print("computing", x)\n    return x * x\n\n\nsq(2)\nsq(2)\nprint("end")\n',
+'_helper = 5\n\n\nclass A:\n    @staticmethod\n    def helper(x):\n        return x + 1\n\n    def m(self):\n        return self.helper(1) + _helper\n\n\nprint(A().m())\n',
+"import gettext\n_ = gettext.gettext\n\n\ndef f(items):\n    for unused in items:\n        print(_('hello'))\n\n\nf([1, 2])\n",
+'fooBar = 1\n\n\ndef f():\n    try:\n        raise ValueError(3)\n    except ValueError as fooBar:\n        print(fooBar)\n\n\nf()\nprint(fooBar)\n',
+'def f(x):\n    return x + 1\n\n\ndef g(y):\n    return y + 1\n\n\ndef h(g):\n    return g * 2\n\n\nprint(f(1), g(2), h(3))\n',
+'def f(x):\n    return print(x)\n\n\ndef g(x):\n    return len(x)\n\n\nprint(f([1]), g([1]))\n',
+"CONFIGURATION_SETTINGS_KEY = 3\n\n\ndef f(d):\n    a = d.get('configuration settings key')\n    b = d.get('configuration settings key')\n    c = d.get('configuration settings key')\n    e = d.get('configuration settings key')\n    g = d.get('configuration settings key')\n    return a, b, c, e, g, CONFIGURATION_SETTINGS_KEY\n\n\nprint(f({'configuration settings key': 1}))\n",
+'class A:\n    @staticmethod\n    def helper(x):\n        return x + 1\n\n    def m(self):\n        return self.helper(1)  # pyrefact: ignore\n\n\nprint(A().m())\n',
 ]
 
 EVERYDAY = [p.lstrip("\n") for p in PROGS + PROGS2 + PROGS3 + PROGS4]
